@@ -494,6 +494,54 @@ fn attacker_case<const N: usize>(c: &mut Ctx, name: &str, k: usize) {
     }
 }
 
+/// Keys generated under crafted randomness: a zero window at each draw of KeyPair::new. Whatever the
+/// stream, signatures under the generated key must verify on their message and must stop verifying
+/// once a single coordinate of the message changes.
+fn crafted_key_case<const N: usize>(c: &mut Ctx, name: &str) {
+    let mut rng = c.rng(name);
+    let mut seed = [0u8; 32];
+    rng.fill_bytes(&mut seed);
+    let mut dry = ScriptRng::new(seed);
+    let _ = KeyPair::<N>::new(&mut dry);
+    for d in 0..dry.draws() {
+        for width in 1..=2usize {
+            if d + width > dry.draws() {
+                continue;
+            }
+            let mut sr = ScriptRng::new(seed);
+            for w in 0..width {
+                sr.inject(d + w, vec![0u8; dry.log[d + w].len]);
+            }
+            let kp = match guard(|| KeyPair::<N>::new(&mut sr)) {
+                Ok(k) => k,
+                Err(p) => {
+                    c.violation(&format!("C07 keygen-panicked N={} case=zero-window loc={}", N, repo_rel(&p.location)), json!({"draw": d, "panic": p.message}));
+                    continue;
+                }
+            };
+            let pka = match PkAtoms::from_value(kp.public_key()) {
+                Ok(a) => a,
+                Err(e) => {
+                    // e.g. an identity element in the key: the reference cannot even read it
+                    c.violation(&format!("C07 generated-key-unreadable N={} case=zero-window", N), json!({"draw": d, "width": width, "error": e}));
+                    continue;
+                }
+            };
+            let env = Env { pk: kp.public_key(), pka: &pka };
+            let m = edge_message::<N>(14 + d, &mut rng);
+            let sig = Message::new(m.vals).sign(&mut rng, &kp);
+            let info = json!({"key_generated_under_zero_window": [d, width], "message_classes": m.name});
+            c.distinct(&format!("crafted-key/N={}/{}x{}", N, d, width));
+            let _ = compare(c, &env, "crafted-key:right-message", &sig, &m.vals, Some(true), &info);
+            for j in 0..N {
+                let mut m2 = m.vals;
+                m2[j] += Scalar::one();
+                let _ = compare(c, &env, "crafted-key:single-coordinate-change", &sig, &m2, Some(false), &info);
+            }
+        }
+    }
+}
+
 // ------------------------------------------------------------------------------------------
 // degenerate signatures produced through the API with chosen randomness
 // ------------------------------------------------------------------------------------------
@@ -635,6 +683,8 @@ fn run_n<const N: usize>(c: &mut Ctx, keys: usize, msgs: usize) {
         let name = format!("degenerate/N={}/key={}", N, k);
         c.case(&name, |c| degenerate_case::<N>(c, &name, k));
     }
+    let name = format!("crafted-key/N={}", N);
+    c.case(&name, |c| crafted_key_case::<N>(c, &name));
 }
 
 pub fn run(c: &mut Ctx) {
